@@ -3,6 +3,7 @@
 package rpc
 
 import (
+	"runtime"
 	"bytes"
 	"compress/gzip"
 	"io"
@@ -83,10 +84,15 @@ func vScenarioCases(t *testing.T, withDecode bool) {
 		case "dec":
 			if withDecode {
 				vGuard(out, c.kind, c.id, func() {
+					var m0, m1 runtime.MemStats
+					runtime.ReadMemStats(&m0)
 					outs, consumed, maxAsk := vRunDecode(c)
-					out.printf("dec %s outs=%s consumed=%s maxask=%d", c.id, strings.Join(outs, "|"), strings.Join(consumed, ","), maxAsk)
+					runtime.ReadMemStats(&m1)
+					out.printf("dec %s outs=%s consumed=%s maxask=%d alloc=%d", c.id, strings.Join(outs, "|"), strings.Join(consumed, ","), maxAsk, m1.TotalAlloc-m0.TotalAlloc)
 				})
 			}
+		case "e2ec":
+			vGuard(out, c.kind, c.id, func() { out.printf("e2ec %s %s", c.id, vRunE2ECancel(c)) })
 		case "scn", "enc":
 			vGuard(out, c.kind, c.id, func() {
 				t0 := time.Now()
